@@ -6,6 +6,7 @@ package main
 
 import (
 	"fmt"
+	"os"
 	"strings"
 )
 
@@ -38,6 +39,9 @@ type Obligation struct {
 	ExpectSat bool   // cover query: goal is asserted positively, sat expected
 	Pos      string // source position (informational)
 	Note     string
+	cached   string
+	AbstractDiv bool
+	AbstractNL bool // replace nonlinear products by uninterpreted symbols in this query (sound for unsat)
 	Excuse   *Term  // known-finding excuse: obligation is proved under ¬excuse
 	vc       *VC
 	// results
@@ -60,6 +64,9 @@ type VC struct {
 	kindCtr  map[string]int
 	Replay   *ReplayInfo
 	defs     map[string]*Term
+	deferRender bool
+	pendingNL bool
+	pendingIdentity []*Term
 	QF       bool // bounded search VC: quantifier-free, z3 only (native constant arrays)
 }
 
@@ -68,6 +75,7 @@ type scriptOpt struct {
 	NoCheck   bool  // omit (check-sat): interactive session
 	DropQuant bool  // drop quantified assumptions (model search only)
 	BoundLens []Val // keep parameter slices small enough to replay
+	noNL      bool
 }
 
 func hasQuant(t *Term) bool {
@@ -163,7 +171,12 @@ func (vc *VC) Oblige(kind, label string, goal *Term, pos string) *Obligation {
 		vc.kindCtr[kind]++
 		name = fmt.Sprintf("%s#%s.%d", vc.FuncName, kind, vc.kindCtr[kind])
 	}
-	ob := &Obligation{Name: name, Func: vc.FuncName, Kind: kind, Goal: goal, Index: len(vc.Items), Pos: pos, vc: vc}
+	ob := &Obligation{Name: name, Func: vc.FuncName, Kind: kind, Goal: goal, Index: len(vc.Items), Pos: pos, vc: vc, AbstractNL: vc.pendingNL}
+	vc.pendingNL = false
+	if ob.AbstractNL && !vc.deferRender {
+		// rendered now: the abstraction needs this VC's definition table
+		ob.cached = ob.scriptNL(scriptOpt{Models: true})
+	}
 	vc.Items = append(vc.Items, Item{Kind: itOblig, Ob: ob})
 	vc.Obs = append(vc.Obs, ob)
 	return ob
@@ -174,7 +187,157 @@ func (ob *Obligation) Script(timeoutMs int, wantModel bool) string {
 	return ob.ScriptOpt(scriptOpt{Models: wantModel})
 }
 
+// nlAbstractor replaces products of two non-constant terms by fresh symbols.
+type nlAbstractor struct {
+	absDiv bool
+	memo  map[*Term]*Term
+	syms  map[string]string
+	decls []string
+}
+
+func (na *nlAbstractor) rw(t *Term) *Term {
+	if t.Op == "const" || t.Op == "sym" || t.Op == "zeroarr" {
+		return t
+	}
+	if r, ok := na.memo[t]; ok {
+		return r
+	}
+	args := make([]*Term, len(t.Args))
+	changed := false
+	for i, a := range t.Args {
+		args[i] = na.rw(a)
+		if args[i] != a {
+			changed = true
+		}
+	}
+	r := t
+	if changed {
+		r = &Term{Op: t.Op, Sort: t.Sort, Args: args, Name: t.Name, Val: t.Val, B: t.B}
+	}
+	if na.absDiv && (r.Op == "div" || r.Op == "mod") && len(r.Args) == 2 && r.Args[1].IntConst() != nil {
+		// x div c becomes an uninterpreted symbol D; x mod c becomes x - c*D
+		pc := &polyCtx{}
+		key := "div:" + pc.expandFull(r.Args[0], 0).Key() + "/" + r.Args[1].Key()
+		name, ok := na.syms[key]
+		if !ok {
+			name = fmt.Sprintf("dv!%d", len(na.syms))
+			na.syms[key] = name
+			na.decls = append(na.decls, name)
+		}
+		d := Sym(name, SInt)
+		if r.Op == "div" {
+			r = d
+		} else {
+			r = &Term{Op: "-", Sort: SInt, Args: []*Term{r.Args[0], &Term{Op: "*", Sort: SInt, Args: []*Term{r.Args[1], d}}}}
+		}
+		na.memo[t] = r
+		return r
+	}
+	if r.Op == "*" {
+		nonConst := 0
+		for _, a := range r.Args {
+			if a.IntConst() == nil {
+				nonConst++
+			}
+		}
+		if nonConst >= 2 {
+			// distribute over sums, then name every monomial of degree >= 2
+			pc := &polyCtx{}
+			p := polyLite(t, func(x *Term) *Term { return pc.expandFull(na.rw(x), 0) }, 0)
+			if p.fail == "" {
+				keys := make([]string, 0, len(p.coef))
+				for k := range p.coef {
+					keys = append(keys, k)
+				}
+				sortStrings(keys)
+				var parts []*Term
+				for _, k := range keys {
+					atoms := p.atoms[k]
+					var m *Term
+					switch len(atoms) {
+					case 0:
+						m = Int(1)
+					case 1:
+						m = atoms[0]
+					default:
+						name, ok := na.syms[k]
+						if !ok {
+							name = fmt.Sprintf("nl!%d", len(na.syms))
+							na.syms[k] = name
+							na.decls = append(na.decls, name)
+							if os.Getenv("GOCV_DEBUG_POLY") != "" {
+								fmt.Fprintf(os.Stderr, "%s = %s\n", name, k)
+							}
+						}
+						m = Sym(name, SInt)
+					}
+					parts = append(parts, &Term{Op: "*", Sort: SInt, Args: []*Term{IntB(p.coef[k]), m}})
+				}
+				switch len(parts) {
+				case 0:
+					r = Int(0)
+				case 1:
+					r = parts[0]
+				default:
+					r = &Term{Op: "+", Sort: SInt, Args: parts}
+				}
+			}
+		}
+	}
+	na.memo[t] = r
+	return r
+}
+
+func sortStrings(s []string) {
+	for i := 1; i < len(s); i++ {
+		for j := i; j > 0 && s[j] < s[j-1]; j-- {
+			s[j], s[j-1] = s[j-1], s[j]
+		}
+	}
+}
+
 func (ob *Obligation) ScriptOpt(opt scriptOpt) string {
+	if ob.AbstractNL && !opt.noNL {
+		if ob.cached != "" && !opt.NoCheck && !opt.DropQuant {
+			return ob.cached
+		}
+		return ob.scriptNL(opt)
+	}
+	return ob.scriptPlain(opt)
+}
+
+// scriptNL renders the query with nonlinear products abstracted: the plain script is
+// generated from rewritten items.
+func (ob *Obligation) scriptNL(opt scriptOpt) string {
+	vc := ob.vc
+	na := &nlAbstractor{memo: map[*Term]*Term{}, syms: map[string]string{}, absDiv: ob.AbstractDiv}
+	saved := make([]*Term, ob.Index)
+	for i := 0; i < ob.Index; i++ {
+		it := &vc.Items[i]
+		saved[i] = it.Term
+		if it.Term != nil && (it.Kind == itDef || it.Kind == itAssume) {
+			it.Term = na.rw(it.Term)
+		}
+	}
+	goal := ob.Goal
+	ob.Goal = na.rw(goal)
+	var pre []string
+	for _, d := range na.decls {
+		pre = append(pre, fmt.Sprintf("(declare-fun %s () Int)", d))
+	}
+	savedPrelude := vc.Prelude
+	vc.Prelude = append(append([]string{}, vc.Prelude...), pre...)
+	opt.noNL = true
+	out := ob.scriptPlain(opt)
+	vc.Prelude = savedPrelude
+	ob.Goal = goal
+	for i := 0; i < ob.Index; i++ {
+		vc.Items[i].Term = saved[i]
+	}
+	return out
+}
+
+func (ob *Obligation) scriptPlain(opt scriptOpt) string {
 	vc := ob.vc
 	wantModel := opt.Models || opt.NoCheck
 	var sb strings.Builder
@@ -292,4 +455,22 @@ func (ob *Obligation) ScriptOpt(opt scriptOpt) string {
 		sb.WriteString("(get-model)\n")
 	}
 	return sb.String()
+}
+
+// ObligeIdentities emits the algebraic identities left behind by the mod-witness tactic.
+func (vc *VC) ObligeIdentities(kind, label string, pos string) {
+	ids := vc.pendingIdentity
+	vc.pendingIdentity = nil
+	for i, id := range ids {
+		l := label + ".identity"
+		if len(ids) > 1 {
+			l = fmt.Sprintf("%s.identity%d", label, i+1)
+		}
+		vc.pendingNL = true
+		vc.deferRender = true
+		ob := vc.Oblige(kind, l, id, pos)
+		vc.deferRender = false
+		ob.AbstractDiv = true
+		ob.cached = ob.scriptNL(scriptOpt{Models: true})
+	}
 }
